@@ -619,12 +619,13 @@ fn run_op(w: &mut World, op: &Value) -> Value {
                     "partial" => {
                         let k = r[1].as_u64().unwrap() as usize;
                         let bytes = next_block();
-                        let parts = k.min(8) + 1;
-                        let sz = bytes.len() / parts + 1;
-                        let mut chunks: Vec<Vec<u8>> = bytes.chunks(sz).map(|c| c.to_vec()).collect();
-                        while chunks.len() < parts { chunks.push(vec![]); }
-                        let first = chunks.remove(0);
-                        pages = chunks;
+                        // k follow-up pages, every one of them carrying data (one byte each, the first page the rest), so that a
+                        // block that is declared complete too early or too late cannot decode
+                        let parts = (k + 1).min(bytes.len());
+                        let cut = bytes.len() - (parts - 1);
+                        let first = bytes[..cut].to_vec();
+                        pages = bytes[cut..].iter().map(|b| vec![*b]).collect();
+                        while pages.len() < k { pages.push(vec![]); }
                         replies.push(GetSuccessorsReply::Ok(GetSuccessorsResponse::Partial(GetSuccessorsPartialResponse {
                             partial_block: first, next: vec![], remaining_follow_ups: k as u8 })));
                     }
